@@ -28,7 +28,7 @@ META = {
         "distinct by content."
     ),
     "assumptions": [
-        "factories do not themselves raise ConfigurationError with an explicit location",
+        "factories do not themselves raise ConfigurationError with an explicit location (one of them raises a prepared ConfigurationError object *without* location, the same object on every call)",
         "order among the values of one mapping is not constrained (only children-before-parents and, within a list, later items first)",
     ],
     "shard_timeout": {"quick": 300, "thorough": 1500},
@@ -36,6 +36,7 @@ META = {
 FACTORIES = [
     "vfact.make", "vfact.Thing", "vfact.Thing.Inner", "vfact.Thing.Inner.Innermost", "vfact.Thing.build",
     "vfact.Thing.cbuild", "vfact.sub.make", "vfact.sub.Klass", "vfact.sub.Klass.build", "vfact.deep.leaf.make",
+    "vfact.give_list", "vfact.give_quoted",  # products that are plain containers holding something that looks like a definition
 ]
 FAILURES = {
     "unknown_module": "vfact_nosuch.thing",
@@ -47,6 +48,7 @@ FAILURES = {
     "raises": "vfact.boom",
     "raises_with_where": "vfact.boom_where",
     "raises_assertion": "vfact.boom_assert",
+    "raises_prepared_config_error": "vfact.boom_cfg",
     "raises_other": None,  # one of RAISERS, chosen per case
     "not_callable": "vfact.CONSTANT",
     "module_not_callable": "vfact.sub",
@@ -413,7 +415,7 @@ def execute_shared(case, tree, result):
     walk(out, tree)
     seen = {}
     for nid, obj in found:
-        if isinstance(obj, dict):
+        if isinstance(obj, dict) and not obj.get("quoted"):  # (give_quoted's product is a mapping on purpose)
             problems.append(("a __type__ mapping of node %s was left untranslated at one of its positions" % nid, None))
         elif id(obj) in seen:
             problems.append(("two positions of node %s share one constructed object" % nid, None))
